@@ -380,6 +380,18 @@ def run(ctx):
                 ctx.tick(len(it2), ("interp_all", n, order))
                 for c, e, o in v:
                     ctx.violation(c, {"kind": "interp", "rows": [r.tolist() for r, _ in it2], "xs": [q for _, q in it2]}, e, o)
+        # rows whose neighbouring nodes are distinct but extremely close (thin CDF tails, CDFs saturating towards 1):
+        # every non-decreasing row of length <= 4 over a second value alphabet, every strictly interior query
+        vals2 = [0.0, 1e-14, 2.5e-9, 0.5, 1 - 1e-9, 1 - 1e-13, 1.0]
+        for n in (2, 3, 4):
+            rows2 = [np.array(c) for c in itertools.combinations_with_replacement(vals2, n) if c[0] < c[-1]]
+            for r in rows2:
+                for q in queries(r):
+                    v = judge_interp([r], [q])
+                    n_int += 1
+                    for c, e, o in v:
+                        ctx.violation(c, {"kind": "interp", "rows": [r.tolist()], "xs": [q]}, e, o)
+            ctx.tick(len(rows2), ("interp_close_nodes", n))
         ctx.cov["interp_calls"] = n_int
         ctx.sample({"kind": "interp", "rows": [[0.0, 0.25, 0.25, 1.0]], "xs": [0.25], "ys": ys_for(4).tolist()})
         # (d) shipped data
